@@ -118,30 +118,53 @@ def write_trace_cfg(run, name, defects, invs, scan=False):
         "post": "ScanAccepted" if scan else "TraceAccepted", "invs": "\n".join("  " + i for i in invs)})
 
 
-def scan(run, traces, defects):
-    """One TLC run over all traces with the mechanism model only: which traces does the mechanism
+def scan(run, traces, defects, batch=1500):
+    """TLC runs over all traces with the mechanism model only: which traces does the mechanism
     WITH the known defects take out of the property layer (and through which defect family)?
     Model-level bookkeeping, no verdict."""
+    out = {"rtc": set(), "ce": set()}
     if not defects:
-        return {"rtc": set(), "ce": set()}
+        return out
     write_trace_cfg(run, "VrfRtcScan_run.cfg", defects, [], scan=True)
-    rows, tids = [], []
-    for i, t in enumerate(traces):
-        t = [dict(r) for r in t]
-        t[0]["tid"] = i + 1
-        rows.extend(t)
-    v.write_ndjson(run.sc.path("spec", "trace.ndjson"), rows)
-    res = v.tlc(run.sc, "VrfRtcTrace", "VrfRtcScan_run.cfg", workers=1, timeout=900, deadlock=False)
-    if not res.ok:
-        return None     # gap / sanity failure: let the ordinary validation report it
-    for ln in res.printed:
-        try:
-            o = json.loads(ln)
-        except Exception:
-            continue
-        if isinstance(o, dict) and "tainted" in o:
-            return {k: set(int(x) - 1 for x in o["tainted"][k]) for k in ("rtc", "ce")}
-    return None
+    for b0 in range(0, len(traces), batch):
+        rows = []
+        for i in range(b0, min(len(traces), b0 + batch)):
+            t = [dict(r) for r in traces[i]]
+            t[0]["tid"] = i + 1
+            rows.extend(t)
+        v.write_ndjson(run.sc.path("spec", "trace.ndjson"), rows)
+        res = v.tlc(run.sc, "VrfRtcTrace", "VrfRtcScan_run.cfg", workers=1, timeout=1200, deadlock=False)
+        if not res.ok:
+            return None     # gap / sanity failure: let the ordinary validation report it
+        got = False
+        for ln in res.printed:
+            try:
+                o = json.loads(ln)
+            except Exception:
+                continue
+            if isinstance(o, dict) and "tainted" in o:
+                for k in ("rtc", "ce"):
+                    out[k] |= set(int(x) - 1 for x in o["tainted"][k])
+                got = True
+        if not got:
+            return None
+    return out
+
+
+def execute_sharded(run, behs, tag, shards):
+    """the harness is single-threaded per process (one synctest bubble at a time): run several
+    processes side by side, each on a contiguous slice of the behaviours"""
+    if shards <= 1 or len(behs) < 200:
+        return run.execute("c17", "pkg/server", "^TestVerifC17$", behs, tag=tag, timeout=2400)
+    from concurrent.futures import ThreadPoolExecutor
+    run.overlay("c17", "pkg/server")        # build the overlay once, before the threads start
+    n = (len(behs) + shards - 1) // shards
+    parts = [behs[i:i + n] for i in range(0, len(behs), n)]
+    with ThreadPoolExecutor(max_workers=len(parts)) as ex:
+        futs = [ex.submit(run.execute, "c17", "pkg/server", "^TestVerifC17$", p, tag="%s-%d" % (tag, i), timeout=2400)
+                for i, p in enumerate(parts)]
+        res = [f.result() for f in futs]
+    return [t for r in res for t in r]
 
 
 def chunks_validate(run, cfg, traces, behs, group, known_cfg=None, sizes=(6, 40, None)):
@@ -255,7 +278,7 @@ def main(run):
             behs = dedupe(behs)
         if not behs:
             continue
-        traces = run.execute("c17", "pkg/server", "^TestVerifC17$", behs, tag="c17-" + batch, timeout=2400)
+        traces = execute_sharded(run, behs, "c17-" + batch, 4)
         validate_group(run, traces, behs, batch)
         if run.violations:
             break
